@@ -10,6 +10,11 @@
                                                connections (findBackend gives up); st = what the live backend that gets the connection does:
                                                0 accept and keep the tunnel open until released, 1 close after the first bytes,
                                                2 reject (WebSocket: 403 instead of 101; stream: close)
+              | [4 b v]                        administrative action on backend b (0..3) while requests / tunnels may be in flight:
+                                               v = 0 BfeBackend.SetAvail(false) (as the failure path marks a backend down), 1 SetAvail(true)
+                                               (as the health check brings it back), 2 / 3 SetRestart(true / false), 4 reload of gslb.data +
+                                               cluster_table.data with unchanged content (b ignored).  None of them may touch a count.
+                                               Observation [[] 1 0 [c0 c1 c2 c3]].
    output: one entry per op: [[attempts] status held [c0 c1 c2 c3]]
            attempts = backends chosen so far for rid (0, 1 live; 2 refuses connections); for a tunnel only the live backend that
            finally got the connection is observable ([] = findBackend gave up after connectRetryMax refused dials);
@@ -27,7 +32,8 @@ Definition NB : nat := 4%nat.     (* backends: 0, 1 live, 2 refuses connections;
 Definition DEAD2 : nat := 3%nat.
 Definition NR : nat := 3%nat.     (* request slots *)
 
-Inductive hop := HStart (rid : nat) (fwd steps : list Z) (rr rf : Z) | HRelease (rid : nat) | HTunnel (rid : nat) (kind st : Z).
+Inductive hop := HStart (rid : nat) (fwd steps : list Z) (rr rf : Z) | HRelease (rid : nat) | HTunnel (rid : nat) (kind st : Z)
+  | HAdmin (b : nat) (v : Z).
 
 Definition decode_start (rid : Z) (f s : val) (rr rf : Z) : option hop :=
   match as_LZ f, as_LZ s with
@@ -50,6 +56,8 @@ Definition decode_op (v : val) : option hop :=
   | VL [VZ 3; VZ rid; VZ kind; VZ st] =>
     if (0 <=? rid) && (rid <? 3) && (0 <=? kind) && (kind <=? 2) && (0 <=? st) && (st <=? 2)
     then Some (HTunnel (Z.to_nat rid) kind st) else None
+  | VL [VZ 4; VZ b; VZ v] =>
+    if (0 <=? b) && (b <=? 3) && (0 <=? v) && (v <=? 4) then Some (HAdmin (Z.to_nat b) v) else None
   | _ => None
   end.
 
@@ -57,7 +65,7 @@ Definition decode_C07 (v : val) : option (Z * list hop) :=
   match v with
   | VL [VZ rm; VZ mode; VL ops] =>
     match all_some (map decode_op ops) with
-    | Some l => if (0 <=? rm) && (rm <=? 4) && (0 <=? mode) && (mode <=? 1) && (length l <=? 12)%nat then Some (rm, l) else None
+    | Some l => if (0 <=? rm) && (rm <=? 4) && (0 <=? mode) && (mode <=? 1) && (length l <=? 24)%nat then Some (rm, l) else None
     | None => None
     end
   | _ => None
@@ -66,8 +74,12 @@ Definition decode_C07 (v : val) : option (Z * list hop) :=
 (* harness-level bookkeeping per request slot: the backend holding it (if any), the choices seen, the last status,
    whether it is a tunnel.  Model requests are indexed by the slot; a slot is re-initialised when it is reused. *)
 Record hstate := mkH { h_model : state; h_hold : nat -> option nat; h_choices : nat -> list nat;
-                       h_status : nat -> Z; h_tun : nat -> bool }.
-Definition h_init : hstate := mkH s_init (fun _ => None) (fun _ => []) (fun _ => 0) (fun _ => false).
+                       h_status : nat -> Z; h_tun : nat -> bool; h_avail : nat -> bool }.
+Definition h_init : hstate := mkH s_init (fun _ => None) (fun _ => []) (fun _ => 0) (fun _ => false) (fun _ => true).
+(* is any backend of the main cluster available?  (the refusing address counts: it is selectable) *)
+Definition any_avail (h : hstate) : bool := h_avail h 0%nat || h_avail h 1%nat || h_avail h 2%nat.
+(* the balancer may only have chosen available backends *)
+Definition choices_avail (h : hstate) (ch : list nat) : bool := forallb (h_avail h) ch.
 Definition is_held (h : hstate) (rid : nat) : bool := match h_hold h rid with Some _ => true | None => false end.
 
 Definition counts_val (s : state) : val := VL (map (fun b => VZ (counts s b)) (seq 0 NB)).
@@ -96,17 +108,18 @@ Fixpoint exec (rm : Z) (ops : list hop) (choose : nat -> hop -> list nat) (k : n
     | HStart rid fwd steps rr rf =>
       if is_held h rid then None else
       let ch := choose k o in
-      match simulate 40 DEAD rm 0 fwd steps ch with
+      (* no backend available: bal.Balance fails at once (as when the retry budget is exhausted), no attempt *)
+      match simulate 40 DEAD rm (if any_avail h then 0 else rm + 1) fwd steps ch with
       | None => None
       | Some m =>
-        if negb (Nat.eqb (m_used m) (length ch)) then None else
+        if negb (Nat.eqb (m_used m) (length ch)) || negb (choices_avail h ch) then None else
         match run_ops (reset (h_model h) rid) (tag rid (m_ops m)) with
         | None => None
         | Some s' =>
           (* h_status: the status at completion (now, or when released) *)
           let fin := final_status rr (if m_held m then 200 else m_status m) in
           let h' := mkH s' (upd (h_hold h) rid (if m_held m then Some (last ch O) else None)) (upd (h_choices h) rid ch)
-                        (upd (h_status h) rid fin) (upd (h_tun h) rid false) in
+                        (upd (h_status h) rid fin) (upd (h_tun h) rid false) (h_avail h) in
           match exec rm rest choose (S k) h' with
           | Some l => Some (obs_val ch (if m_held m then 0 else fin) (m_held m) s' :: l)
           | None => None
@@ -116,6 +129,7 @@ Fixpoint exec (rm : Z) (ops : list hop) (choose : nat -> hop -> list nat) (k : n
     | HTunnel rid kind st =>
       if is_held h rid then None else
       let ch := choose k o in
+      if negb (choices_avail h ch) then None else
       match tunnel_ops kind ch st with
       | None => None
       | Some (tops, held) =>
@@ -124,12 +138,20 @@ Fixpoint exec (rm : Z) (ops : list hop) (choose : nat -> hop -> list nat) (k : n
         | Some s' =>
           let status := if held then 0 else 1 in
           let h' := mkH s' (upd (h_hold h) rid (if held then Some (last ch O) else None)) (upd (h_choices h) rid ch)
-                        (upd (h_status h) rid 1) (upd (h_tun h) rid true) in
+                        (upd (h_status h) rid 1) (upd (h_tun h) rid true) (h_avail h) in
           match exec rm rest choose (S k) h' with
           | Some l => Some (obs_val ch status held s' :: l)
           | None => None
           end
         end
+      end
+    | HAdmin b v =>
+      (* no count changes; only the availability seen by the balancer *)
+      let av := if v =? 0 then upd (h_avail h) b false else if v =? 1 then upd (h_avail h) b true else h_avail h in
+      let h' := mkH (h_model h) (h_hold h) (h_choices h) (h_status h) (h_tun h) av in
+      match exec rm rest choose (S k) h' with
+      | Some l => Some (obs_val [] 1 false (h_model h) :: l)
+      | None => None
       end
     | HRelease rid =>
       if negb (is_held h rid) then
@@ -143,7 +165,7 @@ Fixpoint exec (rm : Z) (ops : list hop) (choose : nat -> hop -> list nat) (k : n
       match run_ops (h_model h) (tag rid (if h_tun h rid then [TunnelEnd] else [RoundTrip 0; Finish])) with
       | None => None
       | Some s' =>
-        let h' := mkH s' (upd (h_hold h) rid None) (h_choices h) (upd (h_status h) rid status) (h_tun h) in
+        let h' := mkH s' (upd (h_hold h) rid None) (h_choices h) (upd (h_status h) rid status) (h_tun h) (h_avail h) in
         match exec rm rest choose (S k) h' with
         | Some l => Some (obs_val (h_choices h rid) status false s' :: l)
         | None => None
@@ -203,20 +225,23 @@ Definition agree_C07 (i o : val) : bool :=
 Definition holders (hold : nat -> option Z) (b : Z) : Z :=
   fold_right (fun rid acc => acc + match hold rid with Some x => if x =? b then 1 else 0 | None => 0 end) 0 (seq 0 NR).
 
-Definition op_rid (o : hop) : nat := match o with HStart r _ _ _ _ => r | HRelease r => r | HTunnel r _ _ => r end.
+Definition op_rid (o : hop) : nat := match o with HStart r _ _ _ _ => r | HRelease r => r | HTunnel r _ _ => r | HAdmin _ _ => O end.
 
 Fixpoint prop_ops (ops : list hop) (obs : list val) (hold : nat -> option Z) : bool :=
   match ops, obs with
   | [], [] => true
   | o :: ops', VL [VL att; VZ status; VZ held; VL cs] :: obs' =>
     let rid := op_rid o in
-    let hold' := upd hold rid (if held =? 1 then match last att (VZ (-1)) with VZ b => Some b | _ => None end else None) in
+    let hold' := match o with
+                 | HAdmin _ _ => hold
+                 | _ => upd hold rid (if held =? 1 then match last att (VZ (-1)) with VZ b => Some b | _ => None end else None)
+                 end in
     match all_some (map as_Z cs) with
     | Some c =>
       (length c =? 4)%nat
       && forallb (fun x => 0 <=? x) c
       && forallb (fun b => nth (Z.to_nat b) c (-1) =? holders hold' b) [0; 1; 2; 3]
-      && (match o with HRelease _ => held =? 0 | _ => if held =? 1 then status =? 0 else negb (status =? 0) end)
+      && (match o with HRelease _ | HAdmin _ _ => held =? 0 | _ => if held =? 1 then status =? 0 else negb (status =? 0) end)
       && prop_ops ops' obs' hold'
     | None => false
     end
